@@ -1,6 +1,6 @@
 #!/bin/bash
-# refresh translators/baseline/*.v from the current (unmodified) /repo
-set -e
-cd /verif
-for t in translators/*2coq.py; do /venv/bin/python -B "$t" /repo coq/theories/Gen; done
-cp coq/theories/Gen/ConfigData.v coq/theories/Gen/CMinxCMake.v translators/baseline/
+# refresh translators/baseline/*.v from the CURRENT /repo (run only on the unchanged tree, after a
+# reviewed repair): the baseline is what the model falls back to when a translator fails closed
+cd /verif || exit 1
+for t in translators/*2coq.py; do /venv/bin/python -B "$t" /repo translators/baseline || exit 1; done
+ls -l translators/baseline
